@@ -444,7 +444,9 @@ impl<'a> Gen<'a> {
             json!({"c":"gac","q":q,"all":all,"neg":neg,"op":op,"on":on,"rhs":[rhs]})
         };
         if self.cfg.messages && self.r.chance(1, 6) {
-            c["msg"] = json!(format!("m{}", self.r.below(1000)));
+            // some messages hold a character that XML output has to escape
+            let k = self.r.below(1000);
+            c["msg"] = if k % 3 == 0 { json!(format!("m{} & co", k)) } else { json!(format!("m{}", k)) };
         }
         c
     }
